@@ -50,6 +50,13 @@ theorem flattenSlices_close_once (m : SM σ (List α)) (h : stFlattenSlicesClose
 theorem flatten_outer_close_once (mo : SM σ τ) (mi : SM τ α) (h : stFlattenCloseForwards = true := by decide) :
     Forwards mo (flatten mo mi) (fun st => st.outer) := flatten_outer_forwards mo mi h
 
+/-- `Runs` used through the documented protocol (outer `Next`, read the inner stream, optionally close
+it, advance) forwards to its source: both ports move the source by at most one step, the outer
+`Close` closes it (through the shared peekable) exactly once. -/
+theorem runs_close_once (same : α → α → Bool) (take : Option Nat) (cl : Bool) (m : SM σ α)
+    (hR : stRunsCloseForwards = true := by decide) (hP : stPeekCloseForwards = true := by decide) :
+    Forwards m (runsProto same take cl m) (fun st => st.rs.pk.inner) := runsProto_forwards same take cl m hR hP
+
 /-- non-vacuity: a two-stage pipeline over the logged source, consumer stops after three calls -/
 example : let m' := chunk 2 (filter (fun (n : Nat) => .ok (n % 2 == 0)) src)
     let t : ChunkSt (Wrap (Src Nat)) Nat := ⟨⟨Src.of [.item 2, .item 4, .transient 1, .item 6]⟩, []⟩
